@@ -1,6 +1,6 @@
 (* C01Proofs.v — the procedure of Authn.v against the declarative AuthnSpec.v, and the handlers of
    Token.v / Authorize.v when authentication fails. *)
-From Verif Require Import Base Scope Types Prog Pop Token Authorize Authn AuthnSpec AuthnLink Tactics.
+From Verif Require Import Base Scope Types Prog Pop Token Authorize Config Authn AuthnSpec AuthnLink Tactics.
 Local Open Scope N_scope.
 Set Warnings "-unused-intro-pattern".
 Import Bool.
@@ -661,4 +661,68 @@ Lemma valid_credential_b_iff g x c rq : valid_credential_b g x c rq = true <-> v
 Proof.
   unfold valid_credential_b, valid_credential.
   rewrite andb_true_iff, identifies_b_iff, method_credential_b_iff. tauto.
+Qed.
+
+(* ---- all eight handlers at once ---- *)
+Lemma unauthenticated_inert_l : forall w n now st,
+  (forall r, unauthenticated w st (t_cred r) -> refused_inert (code_grant w n now r) st (pre_code w r)) /\
+  (forall r, unauthenticated w st (t_cred r) -> refused_inert (refresh_grant w n now r) st (pre_refresh w r)) /\
+  (forall r, unauthenticated w st (t_cred r) -> refused_inert (cc_grant w n now r) st (pre_cc w)) /\
+  (forall r, unauthenticated w st (t_cred r) -> refused_inert (ciba_grant w n now r) st (pre_ciba w)) /\
+  (forall r, unauthenticated w st (pr_cred r) -> refused_inert (push_auth w n now r) st (cf_par_enabled (w_cfg w))) /\
+  (forall r, unauthenticated w st (br_cred r) -> refused_inert (init_back_auth w n now r) st (cf_ciba_enabled (w_cfg w))) /\
+  (forall r, unauthenticated w st (q_cred r) -> refused_inert (introspect w now r) st (cf_introspection (w_cfg w))) /\
+  (forall r, unauthenticated w st (q_cred r) -> refused_inert (revoke w now r) st (cf_revocation (w_cfg w))).
+Proof.
+  intros w n now st. repeat split; intros r H.
+  - exact (inert_code w n now r st H).
+  - exact (inert_refresh w n now r st H).
+  - exact (inert_cc w n now r st H).
+  - exact (inert_ciba w n now r st H).
+  - exact (inert_par w n now r st H).
+  - exact (inert_bc w n now r st H).
+  - exact (inert_introspect w now r st H).
+  - exact (inert_revoke w now r st H).
+Qed.
+
+(* ---- concrete instances: the hypotheses of the theorems are satisfiable ---- *)
+Definition ex_cfg : acfg := mkACfg [ES256] [HS256] 600 0 true true.
+Definition ex_key : jwk := mkJwk 11 (Some ES256) 101 KtEC256 true 0.
+Definition ex_client : aclient :=
+  mkAClient 1 MPrivateKeyJWT MUnset MUnset None None None None 0 false (JwksByValue [ex_key]) "" "" IpUnset.
+Definition ex_assertion : assertion :=
+  mkAssertion (SPriv 101) ES256 11 (Some 1) 1 [AudTokenURL] (Some 60%Z) None None true.
+Definition ex_request : request := mkRequest 0 0 None (AJws ex_assertion) true None true None.
+
+Lemma authn_sound_nonvacuous_l :
+  authenticated ex_cfg CtxToken [ex_client] ex_request = Some ex_client /\ ca_id ex_client <> 0.
+Proof. split; [vm_compute; reflexivity | discriminate]. Qed.
+
+Lemma authn_complete_nonvacuous_l :
+  registered [ex_client] ex_client /\ valid_credential ex_cfg CtxToken ex_client ex_request /\
+  unambiguous ex_client ex_request.
+Proof.
+  split; [reflexivity|]. split; [apply valid_credential_b_iff; vm_compute; reflexivity|].
+  intros ks H. injection H as <-. split.
+  - intros a j j' _ [<-|[]] [<-|[]] _ _. reflexivity.
+  - intros ct j j' _ [<-|[]] [<-|[]] _ _. reflexivity.
+Qed.
+
+(* a forged assertion (signed by a key that is not registered) is refused, and the request then is
+   an unauthenticated one for the handlers *)
+Lemma unauthenticated_nonvacuous_l :
+  let rq := mkRequest 0 0 None (AJws (mkAssertion (SPriv 999) ES256 11 (Some 1) 1 [AudTokenURL] (Some 60%Z) None None true))
+              true None true None in
+  let w := mkWorld (Config.base_config POpenID) [] in
+  let st := mkStore [mkClient 1 false [GClientCredentials] [] [] "" CibaNone false false false false false false false 0 false] [] [] in
+  authenticated ex_cfg CtxToken [ex_client] rq = None /\
+  agrees CtxToken [ex_client] w st /\
+  unauthenticated w st (cred_of ex_cfg CtxToken [ex_client] rq).
+Proof.
+  intros rq w st. split; [vm_compute; reflexivity|]. split.
+  - intro i. destruct (N.eqb 1 i) eqn:E.
+    + apply N.eqb_eq in E. subst i. vm_compute. reflexivity.
+    + unfold lookup, find_aclient, find_client, ideq, w, st. cbn [w_static st_clients find c_id ca_id ex_client].
+      rewrite E. exact I.
+  - right. right. eexists. split; [vm_compute; reflexivity|]. split; reflexivity.
 Qed.
